@@ -78,6 +78,20 @@ func (w *World) buildQuery(o *Obligation, g *Gen, uses []string) string {
 		return changed
 	}
 	scan(toks)
+	axText := ""
+	{
+		var an []string
+		for n := range g.axioms {
+			if toks[n] {
+				an = append(an, n)
+			}
+		}
+		sort.Strings(an)
+		for _, n := range an {
+			axText += g.axioms[n] + "\n"
+		}
+		scan(tokensOf(axText))
+	}
 	autoText := ""
 	usedAuto := map[string]bool{}
 	var lnames []string
@@ -135,7 +149,7 @@ func (w *World) buildQuery(o *Obligation, g *Gen, uses []string) string {
 		}
 	}
 	specText := strings.Join(defs, "")
-	all := tokensOf(text, specText, autoText)
+	all := tokensOf(text, specText, autoText, axText)
 
 	var sb strings.Builder
 	sb.WriteString("(set-option :produce-models true)\n(set-logic ALL)\n")
@@ -156,6 +170,7 @@ func (w *World) buildQuery(o *Obligation, g *Gen, uses []string) string {
 	for _, n := range fnames {
 		sb.WriteString(g.funcs[n] + "\n")
 	}
+
 	// heap components (initial)
 	var comps []string
 	for name := range w.compSorts {
@@ -174,6 +189,7 @@ func (w *World) buildQuery(o *Obligation, g *Gen, uses []string) string {
 	}
 	sb.WriteString(specText)
 	sb.WriteString(autoText)
+	sb.WriteString(axText)
 	sb.WriteString(text)
 	sb.WriteString("(check-sat)\n")
 	if !o.Cover && len(o.Inputs) > 0 {
